@@ -11,4 +11,4 @@ Extraction "C07_model.ml" wire_anchor
   sv_step sv_run sv_get_if sv_holds sv_visit sv_rel sv_convert
   so_step so_run so_value_or so_and_then so_or_else so_rel so_rel_null so_rel_val
   se_step se_run se_value_or se_and_then se_or_else
-  sr_step sr_run.
+  sr_step sr_run ustep urun unex_eq su_step su_run.
